@@ -67,7 +67,7 @@ def _build(sx, cfg):
     for name, lo, hi in cfg.get("subregions", []):
         s1 = [pmin[a] + lo[a] * c[a] for a in range(nd)]
         s2 = [pmin[a] + hi[a] * c[a] for a in range(nd)]
-        if cfg.get("sub_int"):
+        if cfg.get("sub_int") or (cfg.get("sub_int_first") and not subs):
             assert all(float(v).is_integer() for v in s1 + s2)
             s1, s2 = [int(v) for v in s1], [int(v) for v in s2]
         subs[name] = df.Region(p1=s1, p2=s2)
@@ -234,6 +234,9 @@ def h_dtype(sx, cfg):
             "complex-inferred": dict(value=base + 1j * (base + 1)),
             "int64": dict(value=base, dtype=np.int64),
             "float32": dict(value=(base / 7.0).astype(np.float32), dtype=np.float32),
+            # complex fields whose imaginary parts vanish or are tiny stay complex, bit for bit
+            "complex-zero-imag": dict(value=(base / 3.0).astype(np.complex128), dtype=complex),
+            "complex-tiny-imag": dict(value=base / 3.0 + 1j * (base * 1e-17), dtype=complex),
         }
         with tempfile.TemporaryDirectory() as d:
             for name, kw in cases.items():
@@ -278,6 +281,10 @@ def tasks(tier):
         dict(n=[2, 2], nvdim=1, box=[[0.0, 0.0], [2.0, 1.0]], subregions=[("s", [0, 0], [1, 2])], sub_int=True),
         dict(n=[2, 2, 2], nvdim=3, box=[[0, 0, 0], [2, 4, 1]], subregions=[("s", [0, 0, 1], [2, 1, 2])]),  # z cell 0.5
         dict(n=[3], nvdim=2, box=[[5], [-1]], subregions=[]),
+        # mixed typing between subregions: the first integer-typed, a later one float-typed with fractional corners (and the reverse)
+        dict(n=[8], nvdim=1, box=[[0], [4]], subregions=[("a", [0], [4]), ("b", [3], [7])], sub_int_first=True),
+        dict(n=[4, 4], nvdim=1, box=[[0.0, 0.0], [2.0, 4.0]], subregions=[("a", [0, 0], [2, 2]), ("b", [1, 1], [4, 3])], sub_int_first=True),
+        dict(n=[8], nvdim=1, box=[[0], [4]], subregions=[("b", [3], [7]), ("a", [0], [4])]),
     ]
     for cfg in typed:
         t.append(dict(harness="h_roundtrip", cfg=cfg, limits=big))
